@@ -10,7 +10,12 @@ Commands:
   reset
   cls <id> <name> <parent|-> <key index|-> <spec 0|1> <n> then n times:
       <name>:<compare><repr><init><doNotCopy>:<owner class id> <default value>
+      (property-backed attribute: `<name>:<flags>:<owner>:p<cache><overridable>:c<int>|s<attribute index>`)
+  sto <idx> <value>           the instance's OWN state (per attribute its `__dict__` entry, `_` = none)
+                              -> I <cls> <n> v..   what getattr shows for it (`showS`)
+  dcs <idx>                   -> I <cls> <n> v..   what a deep copy of stored state idx shows (`copyShows`); copied owners `c`
   st <idx> <value>            define state idx
+                              (`eq`: `pyEqC` — an operand that refers to itself (SELF) is compared through `cEq`)
   eq <i> <j>                  -> 1|0      (x == y)
   dc <i>                      -> 1|0      (deepcopy(x) == x)
   dca <i>                     -> 1|0      (deepcopy keeps EVERY attribute, compare=False ones included)
@@ -91,6 +96,7 @@ partial def parseVal (ts : List String) : Option (Val × List String) :=
 structure DSt where
   table : Table := []
   states : List (Nat × Val) := []
+  stored : List (Nat × Val) := []     -- the instances' own state (`__dict__` entries), `sto`
 
 def DSt.get (d : DSt) (i : Nat) : Option Val := (d.states.find? (·.1 == i)).map (·.2)
 
@@ -101,14 +107,27 @@ partial def parseAttrs (n : Nat) (ts : List String) : Option (List AttrInfo) :=
     match ts with
     | spec :: r =>
       match spec.splitOn ":" with
-      | [name, flags, owner] =>
+      | name :: flags :: owner :: more =>
         match flags.toList with
         | [c, rp, i, d] => do
           let ow ← owner.toNat?
           let (dv, r) ← parseVal r
           let rest ← parseAttrs n r
+          -- property-backed: `p<cache><overridable>` and the getter `c<int>` (constant) / `s<attribute index>`
+          let pr : Option (Option PropInfo) :=
+            match more with
+            | [] => some none
+            | [pf, g] =>
+              (match pf.toList, g.toList with
+               | ['p', ca, ov], 'c' :: x =>
+                 (String.ofList x).toInt?.map (fun k => some { cache := ca == '1', overridable := ov == '1', getter := .const (.int k) })
+               | ['p', ca, ov], 's' :: x =>
+                 (String.ofList x).toNat?.map (fun j => some { cache := ca == '1', overridable := ov == '1', getter := .sameAs j })
+               | _, _ => none)
+            | _ => none
+          let pr ← pr
           pure ({ name := name, compare := c == '1', repr := rp == '1', init := i == '1',
-                  doNotCopy := d == '1', dflt := dv, owner := ow } :: rest)
+                  doNotCopy := d == '1', dflt := dv, owner := ow, prop := pr } :: rest)
         | _ => none
       | _ => none
     | [] => none
@@ -174,9 +193,22 @@ def handle (d : DSt) (line : String) : DSt × String :=
          | _ => true
        s!"ok wf={b2s (wfVal d.table v && wfTable d.table && own)} acyclic={b2s (okVal v)}")
     | _, _ => (d, "bad-st")
+  | "sto" :: idx :: rest =>
+    match idx.toNat?, parseVal rest with
+    | some i, some (.inst c st, []) =>
+      let fs := showS (d.table.attrs c) st
+      ({ d with stored := (i, .inst c st) :: d.stored },
+       " ".intercalate (["I", toString c, toString (lenV fs)] ++ showVals fs))
+    | _, _ => (d, "bad-sto")
+  | ["dcs", i] =>
+    match (i.toNat?.bind (fun i => (d.stored.find? (·.1 == i)).map (·.2)) : Option Val) with
+    | some (.inst c st) =>
+      let fs := copyShows d.table c st
+      (d, " ".intercalate (["I", toString c, toString (lenV fs)] ++ showVals fs))
+    | _ => (d, "bad-dcs")
   | ["eq", i, j] =>
     match i.toNat?.bind d.get, j.toNat?.bind d.get with
-    | some x, some y => (d, b2s (pyEq d.table x y))
+    | some x, some y => (d, b2s (pyEqC d.table x y))
     | _, _ => (d, "bad-eq")
   | ["dc", i] =>
     match i.toNat?.bind d.get with
